@@ -51,7 +51,10 @@ def generate(rng, tier, index):
         r = rng.random()
         if r < 0.45 and len(pending) < maxn:
             nid += 1
-            events.append({'e': 'req', 'id': nid, 'count': rng.choice([1, 2, 5, 20]), 'addr': rng.randrange(0, 60000)})
+            ev = {'e': 'req', 'id': nid, 'count': rng.choice([1, 2, 5, 20]), 'addr': rng.randrange(0, 60000)}
+            if rng.random() < 0.15:
+                ev['reissue'] = {'id': 100000 + nid, 'count': 1, 'addr': rng.randrange(0, 60000)}
+            events.append(ev)
             if not lost:
                 pending.append(nid)
         elif r < 0.8 and pending and not lost:
@@ -144,6 +147,7 @@ def execute(scn):
         out['violations'].append({'sig': dict(sig0, **dict({'class': cls}, **kv)), 'msg': msg})
     # replay the history on the model
     pending = []                # rids in issue order
+    reissue_of = {}
     expect = {}                 # rid -> {'cb': n, 'eb': n}
     lost = False
     max_out = 0
@@ -156,7 +160,11 @@ def execute(scn):
             if lost:
                 expect[rid]['eb'] = 1
                 expect[rid]['after_loss'] = True
+                if ev.get('reissue'):
+                    expect[ev['reissue']['id']] = {'cb': 0, 'eb': 1, 'after_loss': True}
             else:
+                if ev.get('reissue'):
+                    reissue_of[rid] = ev['reissue']['id']
                 # outstanding tids pairwise distinct
                 rec = res.reqs.get(rid)
                 if rec is not None and variant == 'tcp':
@@ -202,6 +210,9 @@ def execute(scn):
             lost = True
             for rid in pending:
                 expect[rid]['eb'] = 1
+                if rid in reissue_of:
+                    # its errback issues a new request: the connection is already gone, it must fail too
+                    expect[reissue_of[rid]] = {'cb': 0, 'eb': 1, 'after_loss': True}
             pending = []
     if out['inconclusive']:
         return out
@@ -258,6 +269,7 @@ def execute(scn):
     out['probes']['coalesced_deliveries'] = sum(1 for ev in scn['events'] if ev['e'] == 'reply' and ev.get('coalesce') and len(ev['ids']) > 1)
     out['probes']['stray_and_reply_in_one_segment'] = sum(1 for ev in scn['events'] if ev['e'] == 'rx' and len(ev['parts']) > 1)
     out['probes']['cut_segments'] = sum(1 for ev in scn['events'] if ev['e'] == 'rx' and ev.get('cuts'))
+    out['probes']['errback_reissues'] = sum(1 for r in res.reqs.values() if r.get('reissued'))
     out['probes']['lose_with_2plus_pending'] = 1 if 'lose' in context_flags and max_out >= 2 else 0
     out['cell'] = '%s/%s' % (variant, ctx)
     return out
